@@ -787,7 +787,9 @@ func (c *Conn) advanceFrame() (int, error) {
 	c.readRemaining = int64(p[1] & 0x7f)
 
 	c.readDecompress = false
-	if c.newDecompressionReader != nil && (p[0]&rsv1Bit) != 0 {
+	// RFC 7692 6: RSV1 means "compressed" on the first frame of a data message only; on control and
+	// continuation frames it stays a reserved bit and fails the connection below.
+	if c.newDecompressionReader != nil && (p[0]&rsv1Bit) != 0 && (frameType == TextMessage || frameType == BinaryMessage) {
 		c.readDecompress = true
 		p[0] &^= rsv1Bit
 	}
